@@ -3,6 +3,7 @@ package object
 import (
 	"errors"
 	"fmt"
+	"sort"
 
 	fail "github.com/textwire/textwire/v2/fail"
 )
@@ -26,7 +27,17 @@ func NewEnclosedEnv(outer *Env) *Env {
 func EnvFromMap(data map[string]any) (*Env, *fail.Error) {
 	env := NewEnv()
 
-	for key, val := range data {
+	keys := make([]string, 0, len(data))
+
+	for key := range data {
+		keys = append(keys, key)
+	}
+
+	// report the same unsupported value on every run
+	sort.Strings(keys)
+
+	for _, key := range keys {
+		val := data[key]
 		obj := NativeToObject(val)
 
 		if obj == nil {
